@@ -82,7 +82,7 @@ func (c *Ctx) isNamerResult(v ssa.Value) bool {
 	c.P.TraceBack(v, TraceOpts{NoParams: true, NoHeapFields: true}, func(x ssa.Value, _ []int) bool {
 		switch y := x.(type) {
 		case *ssa.Call:
-			if y.Call.IsInvoke() && y.Call.Method.Name() == "FileName" {
+			if c.An.IsFileNamerCall(y) {
 				hit = true
 				return false
 			}
